@@ -7,6 +7,7 @@ import (
 	"context"
 	"encoding/json"
 	"fmt"
+	"runtime"
 	"sync"
 	"sync/atomic"
 	"time"
@@ -33,6 +34,8 @@ type Transport struct {
 	OnWrite func(n int)
 	// WriteErr, if set, makes writes fail.
 	WriteErr atomic.Bool
+	// OnClose, if set, is called at the beginning of Close (before it is recorded): a natural gate.
+	OnClose func(d centrifuge.Disconnect)
 }
 
 func NewTransport(proto centrifuge.ProtocolType) *Transport {
@@ -92,15 +95,10 @@ func (t *Transport) decode(b []byte) []*protocol.Reply {
 			}
 		}
 	} else {
-		d := protocol.NewProtobufReplyDecoder(data)
-		for {
-			r, err := d.Decode()
-			if r != nil {
-				out = append(out, r)
-			}
-			if err != nil {
-				break
-			}
+		// a Transport receives ONE un-prefixed Reply per message (the length prefix is added by the real transports)
+		var r protocol.Reply
+		if err := r.UnmarshalVT(data); err == nil {
+			out = append(out, &r)
 		}
 	}
 	if len(out) == 0 {
@@ -155,6 +153,9 @@ func (t *Transport) WriteMany(bs ...[]byte) error {
 }
 
 func (t *Transport) Close(d centrifuge.Disconnect) error {
+	if f := t.OnClose; f != nil {
+		f(d)
+	}
 	t.mu.Lock()
 	t.nclose++
 	if !t.closed {
@@ -241,9 +242,14 @@ type Env struct {
 	Setup func(c *centrifuge.Client)
 	// Hook is called for every logged callback (after logging), e.g. to gate.
 	Hook func(ev Event)
+	// PreHook is called before the callback is logged (a gate here delays the log entry until the release).
+	PreHook func(client, kind, ch string)
 }
 
 func (e *Env) Log(client, kind, ch string, code uint32, extra string) {
+	if e.PreHook != nil {
+		e.PreHook(client, kind, ch)
+	}
 	ev := Event{Seq: e.seq.Add(1), Client: client, Kind: kind, Ch: ch, Code: code, Extra: extra}
 	e.logMu.Lock()
 	e.log = append(e.log, ev)
@@ -642,4 +648,95 @@ func (g *Gate) Release() {
 	default:
 		close(g.release)
 	}
+}
+
+// ------------------------------------------------------------------ goroutine identity
+
+// GoID returns the current goroutine's id (parsed from runtime.Stack; harness-only use).
+func GoID() uint64 {
+	var buf [64]byte
+	n := runtime.Stack(buf[:], false)
+	// "goroutine 123 [running]:"
+	var id uint64
+	for _, c := range buf[len("goroutine "):n] {
+		if c < '0' || c > '9' {
+			break
+		}
+		id = id*10 + uint64(c-'0')
+	}
+	return id
+}
+
+// ------------------------------------------------------------------ gating presence manager
+
+// GatePresence wraps the node's memory presence manager; Add/Remove are natural gates.
+type GatePresence struct {
+	Inner    centrifuge.PresenceManager
+	OnAdd    func(ch, clientID string)
+	OnRemove func(ch, clientID string)
+}
+
+func NewGatePresence(n *centrifuge.Node) (*GatePresence, error) {
+	inner, err := centrifuge.NewMemoryPresenceManager(n, centrifuge.MemoryPresenceManagerConfig{})
+	if err != nil {
+		return nil, err
+	}
+	return &GatePresence{Inner: inner}, nil
+}
+
+func (g *GatePresence) Presence(ch string) (map[string]*centrifuge.ClientInfo, error) {
+	return g.Inner.Presence(ch)
+}
+func (g *GatePresence) PresenceStats(ch string) (centrifuge.PresenceStats, error) {
+	return g.Inner.PresenceStats(ch)
+}
+func (g *GatePresence) AddPresence(ch string, clientID string, info *centrifuge.ClientInfo) error {
+	if g.OnAdd != nil {
+		g.OnAdd(ch, clientID)
+	}
+	return g.Inner.AddPresence(ch, clientID, info)
+}
+func (g *GatePresence) RemovePresence(ch string, clientID string, userID string) error {
+	if g.OnRemove != nil {
+		g.OnRemove(ch, clientID)
+	}
+	return g.Inner.RemovePresence(ch, clientID, userID)
+}
+
+// ------------------------------------------------------------------ manual timer scheduler
+
+// ManualTimers implements centrifuge.TimerScheduler: timers never fire by themselves; Fire runs the most
+// recently scheduled, not cancelled callback on the calling goroutine.
+type ManualTimers struct {
+	mu   sync.Mutex
+	last *manualTimer
+}
+
+type manualTimer struct {
+	cb        func()
+	d         time.Duration
+	cancelled atomic.Bool
+}
+
+func (t *manualTimer) Cancel() { t.cancelled.Store(true) }
+
+func (m *ManualTimers) ScheduleTimer(d time.Duration, cb func()) centrifuge.TimerCanceler {
+	t := &manualTimer{cb: cb, d: d}
+	m.mu.Lock()
+	m.last = t
+	m.mu.Unlock()
+	return t
+}
+
+// Fire runs the pending timer callback, returns false if there is none.
+func (m *ManualTimers) Fire() bool {
+	m.mu.Lock()
+	t := m.last
+	m.last = nil
+	m.mu.Unlock()
+	if t == nil || t.cancelled.Load() {
+		return false
+	}
+	t.cb()
+	return true
 }
